@@ -272,10 +272,12 @@ RELATED = {"Handle": ["HandleId", "Raise"], "ExpressionType": ["Match", "Handle"
            "DocStr": [], "With": [], "IsNA": [], "Pass": ["Pass"]}
 
 
-def ob_structure(run, mir, rp):
+def ob_structure(run, mir, rp, only_fns=None):
     """Every arm of the typed-AST -> Core converters builds the documented Core shape from the conversions of its children."""
     groups = {}
     for sp in convkern.specs():
+        if only_fns and sp["fn"] not in only_fns:
+            continue
         groups.setdefault(sp["fn"], []).append(sp)
     for fnname, sps in groups.items():
         ob = run.ob(f"structure-{fnname.replace('_', '-')}", "E2",
